@@ -1,11 +1,14 @@
 // unit `sort`: src/sort.rs — partition_mut, get_from_sorted_mut (C15, C02, C03, C16, C18)
+#![feature(allocator_api)]
 #![allow(unused_imports, unused_variables, unused_mut, dead_code)]
 use vstd::prelude::*;
 use core::cmp::Ordering;
-use vstd::std_specs::cmp::{OrdSpec, PartialOrdSpec};
+use vstd::std_specs::cmp::{OrdSpec, PartialOrdSpec, PartialEqSpec};
+use std::alloc::Allocator;
 verus! {
 //@include ../shim/order.rs
 //@include ../shim/lane.rs
+//@include ../shim/indexmap.rs
 
 impl<A> Lane<A> {
 //@extract file=src/sort.rs impl=Sort1dExt fn=partition_mut id=partition_mut tags=C15,C02,C03,C16,C18 body_tags=C15,C16
@@ -29,9 +32,11 @@ impl<A> Lane<A> {
             final(self)@[r as int] == old(self)@[pivot_index as int], // [C15,C02]
             forall|k: int| 0 <= k < r ==> lt(#[trigger] final(self)@[k], old(self)@[pivot_index as int]), // [C15,C02]
             forall|k: int| r < k < final(self)@.len() ==> !lt(#[trigger] final(self)@[k], old(self)@[pivot_index as int]), // [C15,C02]
+//@at entry
+        proof { reveal(lawful_ord); }
 //@loop 0
             invariant
-                lawful_ord::<A>(),
+                ord_laws::<A>(),
                 n == self@.len(), n >= 1,
                 self@.to_multiset() == old(self)@.to_multiset(), // [C03]
                 self@[0] == pivot_value, pivot_value == old(self)@[pivot_index as int], // [C15,C02]
@@ -45,7 +50,7 @@ impl<A> Lane<A> {
             decreases j + 1 - i
 //@loop 1
                 invariant
-                    lawful_ord::<A>(),
+                    ord_laws::<A>(),
                     n == self@.len(),
                     1 <= i <= j + 1, j <= n - 1, // [C15,C02,C16]
                     forall|k: int| 1 <= k < i ==> lt(#[trigger] self@[k], pivot_value), // [C15,C02]
@@ -54,7 +59,7 @@ impl<A> Lane<A> {
                 decreases j + 1 - i
 //@loop 2
                 invariant
-                    lawful_ord::<A>(),
+                    ord_laws::<A>(),
                     n == self@.len(), n >= 1,
                     1 <= i <= j + 1, j <= n - 1, // [C15,C02,C16]
                     n >= 2 ==> j >= 1, // [C15,C02,C16]
@@ -83,67 +88,227 @@ impl<A> Lane<A> {
         ensures
             final(self)@.len() == old(self)@.len(), // [C03,C02]
             perm(final(self)@, old(self)@), // [C03]
-            r == final(self)@[i as int], // [C02,C18]
-            forall|k: int| 0 <= k < i ==> le(#[trigger] final(self)@[k], r), // [C02,C18]
-            forall|k: int| i <= k < final(self)@.len() ==> le(r, #[trigger] final(self)@[k]), // [C02,C18]
+            selected_at(final(self)@, i as int, r), // [C02,C18] r is at position i, everything before is <= r, everything from i on is >= r
         decreases old(self)@.len()
 //@at after_let partition_index tags=C02
             let ghost mid = self@;
-            let ghost pv = mid[partition_index as int];
+//@at after_call clone 0 tags=C02
+            proof { lemma_select_pivot(self@, 0); }
+//@at after_call clone 1 tags=C02
+                proof { lemma_select_pivot(self@, partition_index as int); }
 //@at after_call get_from_sorted_mut 0 tags=C02,C03
                 proof {
                     let p = partition_index as int;
-                    let a = mid.subrange(0, 0);
-                    let m = mid.subrange(0, p);
-                    let c = mid.subrange(p, n as int);
-                    let m2 = self@.subrange(0, p);
-                    assert(self@ =~= a + m2 + c);
-                    assert(mid =~= a + m + c);
-                    lemma_perm_concat3(a, m, m2, c);
-                    assert forall|k: int| 0 <= k < p implies lt(#[trigger] self@[k], pv) by {
-                        lemma_perm_contains(m, m2, k);
-                    }
-                    assert forall|k: int| i <= k < self@.len() implies le(__r, #[trigger] self@[k]) by {
-                        if k >= p {
-                            assert(self@[k] == mid[k]);
-                            assert(__r == self@[i as int]);
-                            assert(lt(self@[i as int], pv));
-                            assert(le(__r, pv));
-                            assert(le(pv, mid[k]));
-                        } else {
-                            assert(self@.subrange(0, p)[k] == self@[k]);
-                        }
-                    }
+                    assert(self@.subrange(p + 1, n as int) =~= mid.subrange(p + 1, n as int));
+                    lemma_repartition(mid, self@, p);
+                    lemma_select_left(self@, p, i as int, __r);
                 }
 //@at after_call get_from_sorted_mut 1 tags=C02,C03
                 proof {
                     let p = partition_index as int;
-                    let a = mid.subrange(0, p + 1);
-                    let m = mid.subrange(p + 1, n as int);
-                    let c = mid.subrange(n as int, n as int);
-                    let m2 = self@.subrange(p + 1, n as int);
-                    assert(self@ =~= a + m2 + c);
-                    assert(mid =~= a + m + c);
-                    lemma_perm_concat3(a, m, m2, c);
-                    assert forall|k: int| p < k < n implies !lt(#[trigger] self@[k], pv) by {
-                        lemma_perm_contains(m, m2, k - (p + 1));
-                    }
-                    assert(!lt(__r, pv));
-                    assert forall|k: int| 0 <= k < i implies le(#[trigger] self@[k], __r) by {
-                        if k <= p {
-                            assert(self@[k] == mid[k]);
-                            assert(__r == self@[i as int]);
-                            assert(!lt(self@[i as int], pv));
-                            assert(le(pv, __r));
-                            assert(le(mid[k], pv));
-                        } else {
-                            assert(self@.subrange(p + 1, n as int)[k - (p + 1)] == self@[k]);
-                        }
-                    }
+                    assert(self@.subrange(0, p) =~= mid.subrange(0, p));
+                    lemma_repartition(mid, self@, p);
+                    lemma_select_right(self@, p, i as int, __r);
                 }
 //@endif
 //@end
+
+//@extract file=src/sort.rs impl=Sort1dExt fn=get_many_from_sorted_mut id=get_many_from_sorted_mut tags=C02,C03,C16,C18 body_tags=C16
+//@sig
+    fn get_many_from_sorted_mut(&mut self, indexes: &Lane<usize>) -> (r: IndexMap<usize, A>)
+    where
+        A: Ord + Clone,
+//@ifmode N
+//@spec
+        requires
+            lawful_ord::<A>(), lawful_clone::<A>(),
+            forall|k: int| 0 <= k < indexes@.len() ==> indexes@[k] < old(self)@.len(),
+        ensures
+            final(self)@.len() == old(self)@.len(), // [C03]
+            perm(final(self)@, old(self)@), // [C03]
+            // one entry per distinct requested index, iterated in increasing index order
+            strictly_increasing(keys_of(r@)), // [C02]
+            forall|x: usize| indexes@.contains(x) <==> #[trigger] keys_of(r@).contains(x), // [C02]
+            // each entry's value is what a full sort would put at that position
+            forall|k: int| 0 <= k < r@.len() ==> selected_at(final(self)@, (#[trigger] r@[k]).0 as int, r@[k].1), // [C02,C18]
+//@at after_call sort_unstable 0 tags=C02,C16
+        let ghost v1 = deduped_indexes@;
+        proof {
+            reveal(lawful_ord);
+            lemma_lawful_ord_usize();
+            assert(sorted_usize(v1));
+            lemma_structural_eq_usize();
+            lemma_dedup_sorted(v1);
+        }
+//@at after_call dedup 0 tags=C02,C16
+        let ghost v2 = deduped_indexes@;
+        proof {
+            assert forall|x: usize| indexes@.contains(x) <==> v2.contains(x) by { lemma_perm_contains_iff(indexes@, v1, x); }
+            assert forall|k: int| 0 <= k < v2.len() implies #[trigger] v2[k] < self@.len() by {
+                assert(v2.contains(v2[k]));
+                let j = choose|j: int| 0 <= j < indexes@.len() && indexes@[j] == v2[k];
+            }
+        }
+//@at after_call get_many_from_sorted_mut_unchecked 0 tags=C02
+        proof {
+            assert(keys_of(__r@) =~= v2);
+        }
+//@endif
+//@ifmode P
+//@spec tags=C16
+        requires
+            lawful_ord::<A>(), lawful_clone::<A>(),
+            exists|k: int| 0 <= k < indexes@.len() && indexes@[k] >= old(self)@.len(),
+        ensures false, // [C16]
+//@at after_call sort_unstable 0 tags=C16
+        let ghost v1 = deduped_indexes@;
+        proof {
+            reveal(lawful_ord);
+            lemma_lawful_ord_usize();
+            assert(sorted_usize(v1));
+            lemma_structural_eq_usize();
+            lemma_dedup_sorted(v1);
+            let k = choose|k: int| 0 <= k < indexes@.len() && indexes@[k] >= self@.len();
+            lemma_perm_contains_iff(indexes@, v1, indexes@[k]);
+            assert(indexes@.contains(indexes@[k]));
+            let j = choose|j: int| 0 <= j < v1.len() && v1[j] == indexes@[k];
+            assert(v1[j] <= v1[v1.len() - 1]);
+        }
+//@endif
+//@end
 }
+
+//@include ../shim/slices.rs
+//@include ../shim/select_lemmas.rs
+
+//@ifmode N
+//@extract file=src/sort.rs fn=_get_many_from_sorted_mut_unchecked id=_get_many_from_sorted_mut_unchecked tags=C02,C03,C16,C18 body_tags=C16
+//@sig
+fn _get_many_from_sorted_mut_unchecked<A>(
+    mut array: &mut Lane<A>,
+    indexes: &mut [usize],
+    values: &mut [A],
+) where
+    A: Ord + Clone,
+//@spec
+    requires
+        lawful_ord::<A>(), lawful_clone::<A>(),
+        old(values)@.len() == old(indexes)@.len(),
+        strictly_increasing(old(indexes)@),
+        forall|k: int| 0 <= k < old(indexes)@.len() ==> old(indexes)@[k] < old(array)@.len(),
+    ensures
+        final(array)@.len() == old(array)@.len(), // [C03,C02]
+        perm(final(array)@, old(array)@), // [C03]
+        final(values)@.len() == old(values)@.len(), // [C02]
+        forall|k: int| 0 <= k < old(indexes)@.len() ==> selected_at(final(array)@, old(indexes)@[k] as int, #[trigger] final(values)@[k]), // [C02,C18]
+    decreases old(array)@.len()
+//@at entry tags=C02,C03,C16
+    let ghost a0 = array@;
+    let ghost ix0 = indexes@;
+    proof {
+        if ix0.len() > 0 {
+            lemma_si_lower(ix0, ix0.len() - 1);
+        }
+    }
+//@at after_call clone 0 tags=C02
+        proof { lemma_select_pivot(array@, 0); }
+//@at after_let array_partition_index tags=C02,C03
+    let ghost mid = array@;
+    let ghost p = array_partition_index as int;
+    proof { lemma_si_sorted(ix0); }
+//@at after_let index_split tags=C02,C16
+    proof {
+        assert(index_split <= ix0.len());
+        assert forall|k: int| 0 <= k < index_split implies #[trigger] ix0[k] < p by {
+            if found_exact { lemma_si_pair(ix0, k, index_split as int); } else { assert(lt(ix0[k], array_partition_index)); }
+        }
+        assert(found_exact ==> index_split < ix0.len() && ix0[index_split as int] == p);
+        assert forall|k: int| index_split <= k < ix0.len() && !(found_exact && k == index_split) implies #[trigger] ix0[k] > p by {
+            if found_exact { lemma_si_pair(ix0, index_split as int, k); } else { assert(lt(array_partition_index, ix0[k])); }
+        }
+    }
+//@at after_let bigger_values tags=C02,C16
+    let ghost off: int = if found_exact { index_split as int + 1 } else { index_split as int };
+    proof {
+        assert(smaller_indexes@ =~= ix0.subrange(0, index_split as int));
+        assert(bigger_indexes@ =~= ix0.subrange(off, ix0.len() as int));
+        assert(bigger_values@.len() == bigger_indexes@.len());
+        lemma_si_sub(ix0, 0, index_split as int);
+        lemma_si_sub(ix0, off, ix0.len() as int);
+    }
+    let ghost bi_unshifted = bigger_indexes@;
+//@at after_call _get_many_from_sorted_mut_unchecked 0 tags=C02,C03
+    let ghost mid2 = array@;
+    let ghost sv = smaller_values@;
+    proof {
+        assert(mid2.subrange(0, p) =~= array@.subrange(0, p));
+        assert(forall|k: int| p <= k < mid.len() ==> mid2[k] == mid[k]);
+    }
+//@at after_call verif_sub_assign_all 0 tags=C02,C16
+    let ghost bi = bigger_indexes@;
+    proof {
+        lemma_si_shift(bi_unshifted, bi, p + 1);
+        assert(forall|k: int| 0 <= k < bi.len() ==> #[trigger] bi[k] == ix0[k + off] - (p + 1));
+    }
+//@at after_call _get_many_from_sorted_mut_unchecked 1 tags=C02,C03
+    proof {
+        let fin = array@;
+        let n = mid.len() as int;
+        assert(fin.subrange(0, p) =~= mid2.subrange(0, p));
+        assert(mid2.subrange(p + 1, n) =~= mid.subrange(p + 1, n));
+        assert(fin[p] == mid[p]);
+        lemma_repartition(mid, fin, p);
+        assert(perm(fin, a0));
+        assert forall|k: int| 0 <= k < ix0.len() implies selected_at(fin, ix0[k] as int, #[trigger] values@[k]) by {
+            if k < index_split {
+                assert(values@[k] == sv[k]);
+                assert(selected_at(fin.subrange(0, p), ix0[k] as int, sv[k]));
+                lemma_select_left(fin, p, ix0[k] as int, sv[k]);
+            } else if found_exact && k == index_split {
+                lemma_select_pivot(fin, p);
+            } else {
+                assert(values@[k] == bigger_values@[k - off]);
+                assert(bi[k - off] == ix0[k] - (p + 1));
+                lemma_select_right(fin, p, ix0[k] as int, values@[k]);
+            }
+        }
+    }
+//@end
+//@endif
+
+//@ifmode N
+//@extract file=src/sort.rs fn=get_many_from_sorted_mut_unchecked id=get_many_from_sorted_mut_unchecked tags=C02,C03,C18 body_tags=C16
+//@sig
+pub fn get_many_from_sorted_mut_unchecked<A>(
+    array: &mut Lane<A>,
+    indexes: &[usize],
+) -> (r: IndexMap<usize, A>)
+where
+    A: Ord + Clone,
+//@spec
+    requires
+        lawful_ord::<A>(), lawful_clone::<A>(),
+        strictly_increasing(indexes@),
+        forall|k: int| 0 <= k < indexes@.len() ==> indexes@[k] < old(array)@.len(),
+    ensures
+        final(array)@.len() == old(array)@.len(), // [C03]
+        perm(final(array)@, old(array)@), // [C03]
+        r@.len() == indexes@.len(), // [C02]
+        forall|k: int| 0 <= k < indexes@.len() ==> (#[trigger] r@[k]).0 == indexes@[k]
+            && selected_at(final(array)@, indexes@[k] as int, r@[k].1), // [C02,C18]
+//@at entry tags=C02,C16
+    proof {
+        lemma_lawful_clone_usize();
+        if indexes@.len() > 0 { assert(indexes@[0] < array@.len()); }
+    }
+//@end
+//@endif
+//@ifmode P
+#[verifier::external_body]
+pub fn get_many_from_sorted_mut_unchecked<A>(array: &mut Lane<A>, indexes: &[usize]) -> (r: IndexMap<usize, A>)
+where A: Ord + Clone
+{ unimplemented!() }
+//@endif
 
 } // verus!
 fn main() {}
